@@ -6,6 +6,7 @@ import (
 	"fmt"
 	"reflect"
 	"strings"
+	"sync/atomic"
 
 	"verif/engine/bind"
 	"verif/engine/ev"
@@ -48,6 +49,9 @@ func (o hOp) String() string {
 	}
 	return "?"
 }
+
+// vacuity indicators for the history explorers: decode operations executed / of which succeeded (DESIGN 12)
+var histDecodes, histDecodesOK int64
 
 var junks = [][]byte{{0xAA}, {0xAA, 0xAA, 0xAA, 0xAA, 0xAA}, {0x00}, {0xFF}, bytes.Repeat([]byte{0x55}, 5000)}
 
@@ -287,6 +291,10 @@ func step(sc *hScenario, st *hState, op hOp) *hFinding {
 		before := st.buf.Len()
 		err := bind.Decode(rc, st.buf)
 		cons := before - st.buf.Len()
+		atomic.AddInt64(&histDecodes, 1)
+		if err == nil {
+			atomic.AddInt64(&histDecodesOK, 1)
+		}
 		if (err == nil) != (werr == nil) {
 			return &hFinding{Kind: "decode-accept", Role: "other", Detail: fmt.Sprintf("model err=%v library err=%v on %s", werr, err, hx(st.unread))}
 		}
